@@ -248,7 +248,8 @@ class C14y_implied_compare(Contract):
     returns = 'AbsList'
     no_use = ['Rational_as_rational']
     properties = ['C14']
-    options = {'key_attrs': 'spec.c14x_refine:KEY_ATTRS', 'light_axioms': True}
+    # 'local': used modularly only by contracts of contracts.c14y* (the C14x leaf lemmas run the code of `_implied_compare`)
+    options = {'key_attrs': 'spec.c14x_refine:KEY_ATTRS', 'light_axioms': True, 'local': 'contracts.c14y'}
     note = ('verified for the operand shapes (Var, Rational), (Rational, Var) and the pairs over Var / Rational / BoolVal that '
             'return nothing (BoolVal stands for every class that is neither Var nor RationalVal); `_implied_logb` is excluded '
             'by wf_cond (not_logb), as in the leaf lemmas; axioms = defining equations of holds / wf_cond for a comparison')
